@@ -70,7 +70,7 @@ def run(ctx):
         ctx.count('commit-failure', len(cf['results']), [x['handle'] for x in cf['results']])
 
     if ctx.thorough:
-        hits = ctx.gate_grep(['Mdib', 'Common'])
+        hits = ctx.gate_grep(['Mdib', 'Common', 'Alias'])
         if hits:
             ctx.broken('theorem', 'grep gate', hits)
         ctx.coqchk('SDC.Props.C03')
@@ -87,6 +87,8 @@ def run(ctx):
         assumptions=['payloads are opaque tokens', 'single writer'],
         trusted_base=['harness/mdibrun.py snapshots, harness/mdibmodel.py', 'harness/impl/c03_alias_impl.py (nested path enumeration '
                       'through sorted_container_properties)'],
-        not_modelled=['isolation is decided by the alias stream (and the Alias separation theorem shared with C12), not by a '
-                      'theorem over the MDIB model, whose values are immutable by construction',
+        not_modelled=['isolation theorems (C03_handed_out_copy_isolated / _stable) are about the object-graph model Alias/ in '
+                      'the configuration of the repaired code; that each getter of the library really deep-copies is decided '
+                      'by the alias stream per getter, handle and nested path, not by a theorem (the MDIB model\'s values are '
+                      'immutable by construction); histories with update_from_other_container are excluded (C12 known finding)',
                       'a commit failing inside report sending is a known finding (no roll-back in the library)'])
